@@ -10,22 +10,35 @@ import (
 type dbgMon struct{ n int }
 
 func (d *dbgMon) OnStep(w *ops.World, st *ops.Step) {
-	if st.Kind == "undelegate" && st.Ack && d.n < 6 {
-		d.n++
-		fmt.Println("undelegate step", st.I, "op state", ops.OperState(w, st.Oper), "holds", st.Post.Ledger.Hold, "mature", st.Post.Dog.Mature, "N", st.Post.Dog.Params.EpochsUntilUnbonded, "epoch", st.Post.Epochs[st.Post.Dog.Params.EpochIdentifier].CurrentEpoch)
+	if st.Kind == "begin_block" && st.Post != nil && len(st.Post.Dog.PendingOptOuts) > 0 {
+		fmt.Println("closing block", st.Height, "pending", st.Post.Dog.PendingOptOuts, "steps so far", st.I)
+		for k, dl := range st.Post.Ledger.Delegation {
+			for _, po := range st.Post.Dog.PendingOptOuts {
+				if len(k) > len(po) && k[len(k)-len(po):] == po && dl.UndelegatableShare.IsPositive() {
+					fmt.Println("   delegation", k, dl.UndelegatableShare)
+				}
+			}
+		}
 	}
 }
 
 func main() {
-	seed, i := int64(1), 260
-	o := ops.DefaultLedgerOpts()
-	r := rand.New(rand.NewSource(seed*7919 + int64(i)))
-	o.NOps = 2 + r.Intn(4)
-	o.Profile = "queues"
-	w, err := ops.BuildLedgerWorld(seed, i, o)
-	if err != nil {
-		panic(err)
+	for i := 0; i < 12; i++ {
+		seed := int64(1)
+		o := ops.DefaultLedgerOpts()
+		r := rand.New(rand.NewSource(seed*7919 + int64(i)))
+		o.NOps = 2 + r.Intn(4)
+		o.ExtraOps = 1 + r.Intn(3)
+		o.NStakers = 3 + r.Intn(6)
+		o.Steps = 100 + r.Intn(80)
+		o.Unbond = uint32(1 + r.Intn(3))
+		o.Profile = "queues"
+		w, err := ops.BuildLedgerWorld(seed, i, o)
+		if err != nil {
+			panic(err)
+		}
+		w.Monitors = []ops.Monitor{&dbgMon{}}
+		w.RunLedger(o)
+		fmt.Println("history", i, "steps", len(w.Steps), "target", o.Steps)
 	}
-	w.Monitors = []ops.Monitor{&dbgMon{}}
-	w.RunLedger(o)
 }
